@@ -2,6 +2,7 @@
 specification judges them, which model-checking configurations of the specification itself run first."""
 import json
 import collections
+import custom
 
 ENC_ACTIONS = "EvEncode ReadAscii ReadC40 ReadText ReadX12 ReadEdifact ReadB256 ReadFinish EvDecodeData EvDecodePixels EvPlan"
 
@@ -125,7 +126,25 @@ PROPS["C12"] = {
     "assumptions": ["num_ecc_blocks / num_ecc_per_block are not observable on their own through the public API: pinned by C06 (syndromes under the spec's interleaving)"],
 }
 
+PROPS["C04"] = {
+    "level_text": "Specification -> implementation: TLC enumerates EVERY behaviour of the strict reference encoder Writer.tla (all legal segmentations into mode runs, all end-of-symbol forms, Base256 with explicit and to-end-of-symbol length, EDIFACT unlatch at each position, macro/FNC1 headers, pads) for all inputs over a 12-byte class alphabet up to length 2 (thorough: 3) at capacities 3..16, and random behaviours (-simulate) for inputs up to 700 bytes; each printed stream is fed to decode_data (and decode_str when printable Latin-1) and must return the spec's input. MC_Codec checks Writer x Stream (reader) = identity beforehand.",
+    "level_note": "Trusts: Writer.tla generates only conformant streams (cross-checked against the independent reader Stream.tla by MC_Codec). The verdict is an equality computed by the harness; the expected value comes from the specification.",
+    "technique": "TLA+ Writer specification; TLC-generated behaviours (exhaustive + simulation) replayed into the implementation's decoder",
+    "mc": ["MC_Codec"],
+    "jobs": [{"family": "genw", "spec": "GenW", "custom": custom.c04_job}],
+    "rule": "one case = one complete behaviour of Writer.tla (input, capacity, prefix, sequence of encoding actions) = one data codeword stream; distinct = distinct printed (expect, stream) lines; all are non-trivial",
+    "assumptions": ["idle latch/unlatch pairs bounded by MaxIdle = 1 in the generator (unbounded in MC_Codec's tiny configuration)"],
+}
+PROPS["C10"] = {
+    "level_text": "(A) closed forms on seeded random cases of every length: never a larger symbol than plain ASCII / plain Base256 needs, TooMuch only if those do not fit, ties resolved by list order (clauses of Trace_Enc). (B) Writer exploration (Trace_Min): for a deterministic set of ~10k short cases TLC runs the strict reference encoder against every listed capacity strictly below the implementation's choice (all if it refused); any completed behaviour is a valid smaller encoding. Each reported violation carries the witness stream, which the implementation's own decoder must decode to the input before it is reported.",
+    "level_note": "Trusts: Writer.tla is a SUBSET of the conformant encodings (strict reading of the end-of-symbol rules; with ASCII disabled ASCII data only inside the standard's fallbacks), so a witness is a real smaller encoding. Known findings are identified by the specific input+configuration (KNOWN_FINDINGS.txt).",
+    "jobs": [enc_job("C10"), {"family": "enc", "spec": "Trace_Min", "custom": custom.c10_min_job}],
+    "rule": "(A) as C01 (seeded); (B) deterministic generator seed 20261003: class-alphabet strings to length 3, boundary strings per class x tail, class pairs, envelope strings, random runs <= 40 bytes x lists x mode sets; non-trivial = encoder returned Ok or TooMuch; distinct = distinct (input, configuration)",
+    "assumptions": ["optimality against ALL conformant encodings is decided only for inputs <= 40 bytes; longer inputs only against the two closed forms"],
+}
+
 MC = {
+    "MC_Codec": {"spec": "MC_Codec", "must_take": ["Write", "StartRead", "Read"], "timeout": 1800},
     "MC_Placement": {"spec": "MC_Placement", "must_take": ["Statement"], "timeout": 900},
 }
 HOOK_COMMITS = []
@@ -231,5 +250,8 @@ def signatures(pid, case, verdict, clauses):
             loc = r.get("loc", "?")
             break
     for c in clauses:
-        sigs.append("%s|%s" % (c, loc))
+        if c == "C10.smallerFits":
+            sigs.append("%s|%s" % (c, custom.case_key(case)))
+        else:
+            sigs.append("%s|%s" % (c, loc))
     return sigs
